@@ -75,6 +75,11 @@ func (w *World) recordChanged(name string) {
 		for _, a := range old.Spec.Allocations {
 			w.unrefAt[a.ENI.ID] = now
 		}
+		for _, p := range w.pods {
+			if p.spec.Name == name {
+				p.lastIPs, p.lastENIs = nil, nil // nothing is kept for the name any more
+			}
+		}
 		delete(w.prevENI, name)
 		w.removedAt[name] = now
 		w.run.S.Log("record", "%s removed", name)
